@@ -27,6 +27,7 @@ func dslValidationFiles(f string) bool {
 }
 
 func init() {
+	reg("C07", ruleStateMachine)
 	reg("C02", ruleJsonKinds, ruleUnionTagDecision, ruleKindTests, ruleOptionalFieldSymmetry)
 	reg("C14", rulePlan, ruleRecordOrder, ruleOptionalFieldSymmetry)
 	reg("C10", rulePairAccess, ruleConstIndex(frontEndNoEvolution, "P2", 30), ruleMakeBounds, ruleErrorProvenance, ruleBreakInSwitchInLoop, rulePositions, ruleNodeLiteralsPositioned, ruleBigIndex, ruleAborts(frontEndNoEvolution, "P4", 25),
